@@ -249,15 +249,14 @@ func (k Keeper) StartDistributionProcess(ctx sdk.Context, states *[]types.State,
 	for _, share := range subDistributor.Destinations.Shares {
 		calculatedShare := calculatePercentage(share.Share, coinsToDistributeDec)
 		defaultShare = defaultShare.Sub(calculatedShare)
-		if share.Destination.Type == types.Main {
-			continue
-		}
 		if !calculatedShare.IsZero() {
-			findFunc := func() int {
-				return findAccountState(localRemains, &share.Destination)
-			}
+			if share.Destination.Type != types.Main {
+				findFunc := func() int {
+					return findAccountState(localRemains, &share.Destination)
+				}
 
-			localRemains = k.addSharesToAccountState(ctx, localRemains, &share.Destination, calculatedShare, findFunc)
+				localRemains = k.addSharesToAccountState(ctx, localRemains, &share.Destination, calculatedShare, findFunc)
+			}
 			distributions = append(distributions, &types.Distribution{
 				Subdistributor: subDistributor.Name,
 				ShareName:      share.Name,
@@ -291,14 +290,14 @@ func (k Keeper) StartDistributionProcess(ctx sdk.Context, states *[]types.State,
 			return findAccountState(localRemains, &accountDefault)
 		}
 		localRemains = k.addSharesToAccountState(ctx, localRemains, &accountDefault, defaultShare, findFunc)
-		distributions = append(distributions, &types.Distribution{
-			Subdistributor: subDistributor.Name,
-			ShareName:      subDistributor.GetPrimaryShareName(),
-			Sources:        subDistributor.Sources,
-			Destination:    &subDistributor.Destinations.PrimaryShare,
-			Amount:         defaultShare,
-		})
 	}
+	distributions = append(distributions, &types.Distribution{
+		Subdistributor: subDistributor.Name,
+		ShareName:      subDistributor.GetPrimaryShareName(),
+		Sources:        subDistributor.Sources,
+		Destination:    &subDistributor.Destinations.PrimaryShare,
+		Amount:         defaultShare,
+	})
 	k.Logger(ctx).Debug("start distribution process ret", "subDistributor", subDistributor.String(), "localRemains", localRemains)
 	return
 }
